@@ -112,6 +112,25 @@ pub fn nfa_to_dfa<A: Clone>(nfa: &NFA<A>) -> DFA<DfaStateIdx, A> {
             Vec::with_capacity(range_transitions.len());
 
         for range in range_transitions.into_iter() {
+            // Splitting ranges (`#`, overlapping ranges of different rules) can leave an end point
+            // among the surrogate code points U+D800..=U+DFFF, which are not `char`s and never
+            // occur in the input: move it to the nearest `char` inside the range, and drop a
+            // range that contains no `char` at all.
+            let is_surrogate = |c: u32| (0xD800..=0xDFFF).contains(&c);
+            let range_start = if is_surrogate(range.start) {
+                0xE000
+            } else {
+                range.start
+            };
+            let range_end = if is_surrogate(range.end) {
+                0xD7FF
+            } else {
+                range.end
+            };
+            if range_start > range_end {
+                continue;
+            }
+
             let mut range_states: Set<NfaStateIdx> = range.value;
 
             for any_next in &any_transitions {
@@ -126,8 +145,8 @@ pub fn nfa_to_dfa<A: Clone>(nfa: &NFA<A>) -> DFA<DfaStateIdx, A> {
             let dfa_state = dfa_state_of_nfa_states(&mut dfa, &mut state_map, closure.clone());
 
             dfa_range_transitions.push(Range {
-                start: range.start,
-                end: range.end,
+                start: range_start,
+                end: range_end,
                 value: dfa_state,
             });
 
